@@ -692,6 +692,9 @@ func (db *Database) GetSuggestions(query string, maxSuggestions int) []string {
 	for word := range wordSet {
 		words = append(words, word)
 	}
+	// The matcher keeps input order among equally good matches; sort the words
+	// so that the suggestions do not depend on map iteration order.
+	sort.Strings(words)
 
 	// Find fuzzy matches for the query
 	matches := fuzzyFind(query, words)
